@@ -63,7 +63,7 @@ reg(Zoo(
             S('X'),
             S('Sub', kind='sub', sub=Machine(
                 'Sub',
-                states=[S('S1', irows=[IR('e3')]), S('S2'), S('T1'), S('T2', irows=[IR('e1')])],
+                states=[S('S1', irows=[IR('e3')]), S('S2', irows=[IR('e5')]), S('T1'), S('T2', irows=[IR('e1')])],
                 initial=['S1', 'T1'],
                 rows=[
                     R('S1', 'e1', 'S2'),
@@ -93,4 +93,159 @@ reg(Zoo(
         irows=[IR('e5')],
     ),
     menu=[('pe', 'e1', 'local'), ('eq', 'e2', 'local'), ('pe', 'e4', 'root')],
+))
+
+# ------------------------------------------------------------------------------------------------
+# ortho: 3 regions sharing events, conflicts, one region reacting only through an internal table
+reg(Zoo(
+    name='ortho',
+    events=['e1', 'e2', 'e3', 'e4'],
+    root=Machine(
+        'Ortho',
+        states=[S('A1'), S('A2'), S('B1'), S('B2'), S('C1', irows=[IR('e1'), IR('e3'), IR('e4', a=False)])],
+        initial=['A1', 'B1', 'C1'],
+        rows=[
+            R('A1', 'e1', 'A2'),
+            R('A2', 'e1', 'A1'),
+            R('A1', 'e2', 'A2', a=False),
+            R('B1', 'e1', 'B2'),
+            R('B2', 'e1', 'B1'),
+            R('B2', 'e1', 'B1', g=False),      # conflict: a_row declared later wins whenever reached
+            R('B1', 'e3', 'B2', a=False, g=False),
+            R('B2', 'e2', 'B1'),
+            R('B2', 'e2', None),               # internal row tried before the row above
+        ],
+        irows=[IR('e4'), IR('e2')],
+    ),
+    menu=[('pe', 'e1', 'local'), ('eq', 'e3', 'local')],
+))
+
+# ------------------------------------------------------------------------------------------------
+# hier3: root -> Mid -> Leaf, the same event guarded at all three levels
+reg(Zoo(
+    name='hier3',
+    events=['e1', 'e2', 'e3', 'e4'],
+    root=Machine(
+        'Top',
+        states=[
+            S('R1'),
+            S('Mid', kind='sub', sub=Machine(
+                'Mid',
+                states=[
+                    S('M1'),
+                    S('Leaf', kind='sub', sub=Machine(
+                        'Leaf',
+                        states=[S('L1'), S('L2', irows=[IR('e3')])],
+                        initial=['L1'],
+                        rows=[R('L1', 'e1', 'L2'), R('L2', 'e1', 'L1'), R('L1', 'e4', 'L2', a=False)],
+                    )),
+                    S('N1'), S('N2'),
+                ],
+                initial=['M1', 'N1'],
+                rows=[
+                    R('M1', 'e2', 'Leaf'),
+                    R('Leaf', 'e1', 'M1'),
+                    R('Leaf', 'e4', None),
+                    R('N1', 'e1', 'N2'),
+                    R('N2', 'e1', 'N1'),
+                ],
+            )),
+        ],
+        initial=['R1'],
+        rows=[
+            R('R1', 'e2', 'Mid'),
+            R('Mid', 'e1', 'R1'),
+            R('Mid', 'e3', 'R1', a=False),
+            R('Mid', 'e4', None, a=False),
+        ],
+    ),
+    menu=[('pe', 'e1', 'local'), ('eq', 'e2', 'root')],
+))
+
+
+# ------------------------------------------------------------------------------------------------
+# hist{N,A,S}: a 3-region submachine under each history policy, entered plainly, by a history event,
+# by explicit entry, by fork naming 2 of 3 regions
+def hist_zoo(tag, history):
+    return Zoo(
+        name='hist' + tag,
+        events=['e1', 'e2', 'e3', 'e4', 'e5', 'e6', 'e7', 'e8', 'e9'],
+        root=Machine(
+            'HRoot',
+            states=[
+                S('Out'),
+                S('H', kind='sub', sub=Machine(
+                    'H',
+                    states=[S('A1'), S('A2', kind='explicit', zone=0), S('B1'), S('B2', kind='explicit', zone=1),
+                            S('C1'), S('C2', kind='explicit', zone=2)],
+                    initial=['A1', 'B1', 'C1'],
+                    rows=[
+                        R('A1', 'e4', 'A2', a=False, g=False), R('A2', 'e4', 'A1', a=False, g=False),
+                        R('B1', 'e5', 'B2', a=False, g=False), R('B2', 'e5', 'B1', a=False, g=False),
+                        R('C1', 'e6', 'C2', a=False, g=False), R('C2', 'e6', 'C1', a=False, g=False),
+                    ],
+                    history=history,
+                )),
+            ],
+            initial=['Out'],
+            rows=[
+                R('Out', 'e1', 'H', a=False, g=False),                      # plain entry, non-history event
+                R('Out', 'e2', 'H', a=False, g=False),                      # entry by the history event
+                R('H', 'e3', 'Out', a=False),                               # leave (guarded)
+                R('Out', 'e7', ('direct', 'H', 'B2'), a=False, g=False),    # explicit entry, non-history event
+                R('Out', 'e8', ('fork', 'H', ['A2', 'C2']), a=False, g=False),   # fork naming regions 0 and 2
+                R('Out', 'e9', ('direct', 'H', 'B2'), a=False, g=False),    # explicit entry by a history event
+            ],
+        ),
+    )
+
+
+reg(hist_zoo('N', None))
+reg(hist_zoo('A', 'always'))
+reg(hist_zoo('S', ('shallow', ['e2', 'e9'])))
+
+# ------------------------------------------------------------------------------------------------
+# entry: direct<>, fork, entry_pt<>, exit_pt<> on a 2-region submachine; the exit point's event can
+# also be sent from outside
+reg(Zoo(
+    name='entry',
+    events=['e1', 'e2', 'e3', 'e4', 'e5', 'e6', 'e7'],
+    exit_conv=['e6'],
+    root=Machine(
+        'ERoot',
+        states=[
+            S('St1'),
+            S('Sub', kind='sub', sub=Machine(
+                'Sub',
+                states=[
+                    S('SS1'), S('SS1b'),
+                    S('SS2', kind='explicit', zone=0), S('SS2b', kind='explicit', zone=1),
+                    S('PEntry', kind='entry_pt', zone=0),
+                    S('SS3'),
+                    S('PExit', kind='exit_pt', exit_evt='e6'),
+                ],
+                initial=['SS1', 'SS1b'],
+                explicit_creation=['SS2b'],
+                rows=[
+                    R('PEntry', 'e4', 'SS3'),
+                    R('SS2', 'e6', 'SS1', a=False, g=False),
+                    R('SS3', 'e5', 'PExit'),
+                    R('SS1', 'e7', 'SS3', a=False),
+                    R('SS2', 'e5', 'PExit', a=False, g=False),
+                    R('SS1b', 'e7', 'SS2b', a=False, g=False),
+                ],
+            )),
+            S('St2'),
+        ],
+        initial=['St1'],
+        rows=[
+            R('St1', 'e1', 'Sub', a=False, g=False),
+            R('St1', 'e2', ('direct', 'Sub', 'SS2'), a=False),
+            R('St1', 'e3', ('fork', 'Sub', ['SS2', 'SS2b'])),
+            R('St1', 'e4', ('entry', 'Sub', 'PEntry'), a=False, g=False),
+            R('Sub', 'e1', 'St1', a=False),
+            R(('exit', 'Sub', 'PExit'), 'e6', 'St2'),
+            R('St2', 'e1', 'St1', a=False, g=False),
+        ],
+    ),
 ))
